@@ -1,4 +1,4 @@
-import StraxModel.Lemmas.Align
+import StraxModel.Lemmas.AlignRun
 /-
   C08 — plugins see time-aligned inputs and receive each input row exactly once.
 
@@ -14,12 +14,21 @@ import StraxModel.Lemmas.Align
   "The re-trim loop does not run out of its ten passes" is implied by the hypothesis
   `… = .ok r` (running out is the `RuntimeError` of D9), see `ok_passes_suffice`.
 
-  Not proved (kept as a comment, see notes/C08.md): totality,
-    converges : (∀ cs ∈ chunks, LawAbiding cs) → StartAt T0 chunks → (all dependencies end together,
-                 same-kind dependencies carry interval-equal rows, no trailing zero-duration chunk)
-                 → passesSufficeB deps chunks strict → ∃ r, iterRun deps chunks strict = .ok r
-  It needs the validity of every intermediate chunk (C07's `split_separates`) and is false
-  without the last hypothesis (`ten_pass_counterexample`).
+  Round 2 (Lemmas/AlignTotal.lean, Lemmas/AlignRun.lean, on top of C07's chunk algebra): validity of
+  every intermediate chunk (`rows_inside_call`), the end of the run (`last_call_ends_at_run_end`,
+  `calls_tile_run`) and TOTALITY (`converges_partial`, `converges_few_rows`,
+  `retrim_terminates`).  "Valid law-abiding input" is C07's `Strax.LawAbiding` (good chunks, adjacent,
+  one data type and run) as `validInputsB rid chunks`; `endAtB T1 chunks` = all dependencies end at
+  `T1`, none with a zero-duration last chunk after other chunks (that chunk is a loud `RuntimeError`, D16).
+
+  Full totality statement (NOT proved for dependencies of EQUAL kind):
+    converges : chunks.length = deps.length → deps ≠ [] → validInputsB rid chunks → StartAt T0 chunks →
+                endAtB T1 chunks → kindAlignedB deps chunks → passesSufficeB deps chunks strict →
+                ∃ r, iterRun deps chunks strict = .ok r
+  Proved as `converges_partial` with `(deps.map (·.kind)).Nodup` in place of `kindAlignedB`: for several
+  dependencies of one kind the success of `Chunk.merge` additionally needs "same-kind inputs split
+  identically" (equal row counts) and the totality of `mergeChunks`, which are not proved.
+  False without `passesSufficeB` (`ten_pass_counterexample`, D9).
 -/
 namespace Strax.C08
 open Strax Strax.Align
@@ -152,6 +161,137 @@ theorem ok_passes_suffice (h : iterRun deps chunks strict = .ok r) (k : Nat) :
     iterRunP (maxPasses + k) deps chunks strict = .ok r :=
   iterRunP_mono k h
 
+/-! ## Round 2: validity of what is handed over, the end of the run, totality -/
+
+/-- **rows inside their call** (bridge for C01 `iter_aligner_partial`): with valid law-abiding
+inputs (C07's sense) that start together, every row handed to `compute` has positive duration
+and lies inside `[call.start, call.stop]`, and `call.start ≤ call.stop`.  Any policy, any kinds,
+the dependencies may end at different times. -/
+theorem rows_inside_call {rid : String} {T0 : Int} (hv : validInputsB rid chunks = true)
+    (hT : StartAt T0 chunks) (h : iterRun deps chunks strict = .ok r) :
+    ∀ c ∈ r.calls, c.start ≤ c.stop ∧
+      ∀ rows ∈ c.rows, ∀ row ∈ rows, c.start ≤ row.time ∧ row.time < row.endt ∧ row.endt ≤ c.stop :=
+  iterRunP_inside hv hT h
+
+/-- the same, per dependency index -/
+theorem rows_inside_call_dep {rid : String} {T0 : Int} (hv : validInputsB rid chunks = true)
+    (hT : StartAt T0 chunks) (h : iterRun deps chunks strict = .ok r) :
+    ∀ c ∈ r.calls, ∀ (i : Nat), ∀ row ∈ c.rowsOf i,
+      c.start ≤ row.time ∧ row.time < row.endt ∧ row.endt ≤ c.stop := by
+  intro c hc i row hrow
+  unfold Call.rowsOf at hrow
+  split at hrow
+  · rename_i rows hrows
+    exact (rows_inside_call hv hT h c hc).2 rows (List.mem_of_getElem? hrows) row hrow
+  · simp at hrow
+
+/-- **the last call ends at the run end**: if all dependencies end at `T1` (`endAtB`), the last call
+ends at `T1` and no buffer keeps a row — under EITHER policy.  (Without the same-end hypothesis
+this is false, see the `longEmptyB` example below.) -/
+theorem last_call_ends_at_run_end {rid : String} {T0 T1 : Int} (hv : validInputsB rid chunks = true)
+    (hT : StartAt T0 chunks) (he : endAtB T1 chunks = true) (h : iterRun deps chunks strict = .ok r) :
+    lastStop T0 r.calls = T1 ∧ ∀ l ∈ r.leftover, l = [] :=
+  iterRunP_tile hv hT he h
+
+/-- **the calls tile the run** `[T0, T1]`: at least one call, the first starts at `T0`, each next one
+where the previous ended, none has negative length, the last ends at `T1`; and (with
+`rows_once_in_order`, leftover empty) every input row is in exactly one of them. -/
+theorem calls_tile_run {rid : String} {T0 T1 : Int} (hlen : chunks.length = deps.length)
+    (hv : validInputsB rid chunks = true) (hT : StartAt T0 chunks) (he : endAtB T1 chunks = true)
+    (h : iterRun deps chunks strict = .ok r) :
+    r.calls ≠ [] ∧ adjacentFrom T0 r.calls ∧ (∀ c ∈ r.calls, c.start ≤ c.stop) ∧
+      lastStop T0 r.calls = T1 ∧
+      ∀ (i : Nat) cs, chunks[i]? = some cs → r.calls.flatMap (fun c => c.rowsOf i) = allRows cs := by
+  obtain ⟨h1, h2⟩ := calls_adjacent hlen hT h
+  obtain ⟨h3, h4⟩ := last_call_ends_at_run_end hv hT he h
+  refine ⟨h1, h2, fun c hc => (rows_inside_call hv hT h c hc).1, h3, ?_⟩
+  intro i cs hi
+  obtain ⟨left, hl, e⟩ := rows_once_in_order hlen h i cs hi
+  have : left = [] := h4 left (List.mem_of_getElem? hl)
+  subst this
+  simpa using e
+
+/-- the re-trim loop terminates: on valid inputs with a common start, (number of rows in the
+inputs + 2) passes always suffice — each pass that does not end the loop takes at least one row
+out of the inputs.  The code's literal bound is ten (D9). -/
+theorem retrim_terminates {rid : String} {T : Int} {n : Nat} {t : Int} {z : Zip (Chunk × DepState)}
+    (hg : ∀ p ∈ z.toList, GoodPair rid p) (hs : ∀ p ∈ z.toList, p.1.start = T) (ht : T ≤ t)
+    (hn : inRows z + 2 ≤ n) : ∃ z', retrim n t z = .ok z' :=
+  retrim_total hg hs ht hn
+
+/-- **totality of `Plugin.iter`** (dependencies of pairwise different kinds): valid law-abiding
+inputs (C07's sense, one run id) that start at `T0` and end at `T1`, and a re-trim loop that does
+not run out of its ten passes (`passesSufficeB`): the run succeeds under either policy, the calls
+tile `[T0, T1]` and every row is handed over. -/
+theorem converges_partial {rid : String} {T0 T1 : Int} (hlen : chunks.length = deps.length)
+    (hdeps : deps ≠ []) (hv : validInputsB rid chunks = true) (hT : StartAt T0 chunks)
+    (he : endAtB T1 chunks = true) (hk : (deps.map (fun d => d.kind)).Nodup)
+    (hp : passesSufficeB deps chunks strict = true) :
+    ∃ r, iterRun deps chunks strict = .ok r ∧ iterModel deps chunks strict = .ok r.calls ∧
+      lastStop T0 r.calls = T1 ∧ ∀ l ∈ r.leftover, l = [] := by
+  obtain ⟨r, hr⟩ := iterRunP_total (strict := strict)
+    (n := maxPasses + (chunks.map allRows).flatten.length + 2) hlen hdeps hv hT he hk (by omega)
+  unfold passesSufficeB at hp
+  rw [hr] at hp
+  have hrun : iterRun deps chunks strict = .ok r := by
+    unfold iterRun
+    cases h10 : iterRunP maxPasses deps chunks strict with
+    | error e => rw [h10] at hp; simp [sameOutcome] at hp
+    | ok a =>
+      rw [h10] at hp
+      simp only [sameOutcome, beq_iff_eq] at hp
+      rw [hp]
+  obtain ⟨t1, t2⟩ := last_call_ends_at_run_end hv hT he hrun
+  exact ⟨r, hrun, by unfold iterModel; rw [hrun], t1, t2⟩
+
+/-- a structural sufficient condition for the ten passes: at most eight input rows in total -/
+theorem converges_few_rows {rid : String} {T0 T1 : Int} (hlen : chunks.length = deps.length)
+    (hdeps : deps ≠ []) (hv : validInputsB rid chunks = true) (hT : StartAt T0 chunks)
+    (he : endAtB T1 chunks = true) (hk : (deps.map (fun d => d.kind)).Nodup)
+    (hfew : (chunks.map allRows).flatten.length + 2 ≤ maxPasses) :
+    ∃ r, iterRun deps chunks strict = .ok r :=
+  iterRunP_total hlen hdeps hv hT he hk hfew
+
+/-- **row accounting for several dependencies of ONE kind** (bridge for C10 `multi_same_kind_partial`,
+its hypotheses `hrows` / `htail`): if all dependencies carry interval-equal rows (`kindAlignedB`),
+the merged rows (`mergedRowsOf` = C10's `mergedRows`) handed over call after call, followed by a
+tail, are exactly the rows of the FIRST dependency's chunks; with time-sorted rows every row of the
+tail starts at or after the end of the last call. -/
+theorem merged_rows_accounting {T0 : Int} {d0 : Dep} {rest : List Dep} {calls : List Call}
+    (hlen : chunks.length = (d0 :: rest).length) (hT : StartAt T0 chunks)
+    (hsame : ∀ d ∈ rest, d.kind = d0.kind) (hk : kindAlignedB (d0 :: rest) chunks = true)
+    (h : iterModel (d0 :: rest) chunks strict = .ok calls) :
+    ∀ cs0, chunks[0]? = some cs0 →
+      ∃ tail, (calls.map mergedRowsOf).flatten ++ tail = allRows cs0 ∧
+        (sortedByTimeB (allRows cs0) = true → ∀ x ∈ tail, lastStop T0 calls ≤ x.time) := by
+  intro cs0 hcs0
+  -- recover the full result
+  unfold iterModel at h
+  split at h
+  · cases h
+  · rename_i r hr
+    injection h with h
+    subst h
+    have hr' : iterRun (d0 :: rest) chunks strict = .ok r := hr
+    obtain ⟨left, hl, e⟩ := rows_once_in_order hlen hr' 0 cs0 hcs0
+    refine ⟨left, ?_, fun hs => undelivered_rows_lie_after_last_call hlen hT hr' 0 cs0 hcs0 hs left hl⟩
+    rw [← e]
+    congr 1
+    have hmerged : ∀ c ∈ r.calls, mergedRowsOf c = c.rowsOf 0 := by
+      intro c hc
+      have hal := calls_aligned hlen hT hr' c hc
+      apply mergedRowsOf_eq (n := rest.length) (by rw [hal.1]; simp)
+      have hlast : (d0 :: rest)[rest.length]? = some ((d0 :: rest)[rest.length]'(by simp)) :=
+        List.getElem?_eq_getElem (by simp)
+      apply calls_row_aligned hlen hT hk hr' c hc 0 rest.length d0 _ rfl hlast
+      have hm : (d0 :: rest)[rest.length]'(by simp) ∈ d0 :: rest := List.getElem_mem _
+      rcases List.mem_cons.mp hm with e1 | e1
+      · rw [e1]
+      · exact (hsame _ e1).symm
+    rw [List.flatMap_def]
+    congr 1
+    exact List.map_congr_left hmerged
+
 /-- D9 in small (C08 is NOT violated: an error is raised, nothing is dropped; C01's totality is):
 brick-pattern rows of two kinds, both chunkings law-abiding, both starting at 0 and ending at 13;
 the code gives up with `RuntimeError` after ten passes … -/
@@ -172,6 +312,17 @@ theorem ten_pass_would_converge :
 
 example : LawAbiding plainA ∧ LawAbiding plainB ∧ StartAt 0 [plainA, plainB] ∧
     [plainA, plainB].length = witnessDeps.length := by decide +kernel
+
+/-- the hypotheses of `converges_partial` / `calls_tile_run` / `rows_inside_call` on that instance -/
+example : validInputsB "0" [plainA, plainB] = true ∧ endAtB 10 [plainA, plainB] = true ∧
+    (witnessDeps.map (fun d => d.kind)).Nodup ∧ witnessDeps ≠ [] ∧
+    passesSufficeB witnessDeps [plainA, plainB] true = true ∧
+    kindAlignedB witnessDeps [plainA, plainB] = true := by decide +kernel
+
+/-- the brick pattern satisfies every hypothesis of `converges_partial` except `passesSufficeB` -/
+example : validInputsB "0" [brickA, brickB] = true ∧ endAtB 13 [brickA, brickB] = true ∧
+    StartAt 0 [brickA, brickB] ∧ passesSufficeB witnessDeps [brickA, brickB] true = false := by
+  decide +kernel
 
 /-- strict policy, a row of `b` straddles the chunk boundary of `a`: two calls, everything delivered -/
 example :
